@@ -6,6 +6,7 @@ import (
 	"os"
 	"time"
 
+	"github.com/mithrandie/csvq/lib/vhook"
 	"github.com/mithrandie/go-file/v2"
 )
 
@@ -39,15 +40,21 @@ func NewHandlerWithoutLock(ctx context.Context, path string, defaultWaitTimeout 
 		openType: ForRead,
 	}
 
+	vhook.Yield("h.exists", 0)
 	if !Exists(h.path) {
 		return h, NewNotExistError(fmt.Sprintf("file %s does not exist", h.path))
 	}
 
+	if e := vhook.Step("h.open.read", h.path); e != nil {
+		return h, closeIsolatedHandler(h, e)
+	}
 	fp, err := file.OpenToReadContext(tctx, retryDelay, h.path)
 	if err != nil {
 		return h, closeIsolatedHandler(h, err)
 	}
 	h.fp = fp
+	vhook.Event("h.acquired", "N "+h.path)
+	vhook.Yield("h.opened", 0)
 	return h, nil
 }
 
@@ -60,6 +67,7 @@ func NewHandlerForRead(ctx context.Context, path string, defaultWaitTimeout time
 		openType: ForRead,
 	}
 
+	vhook.Yield("h.exists", 0)
 	if !Exists(h.path) {
 		return h, NewNotExistError(fmt.Sprintf("file %s does not exist", h.path))
 	}
@@ -68,11 +76,16 @@ func NewHandlerForRead(ctx context.Context, path string, defaultWaitTimeout time
 		return h, closeIsolatedHandler(h, err)
 	}
 
+	if e := vhook.Step("h.open.read", h.path); e != nil {
+		return h, closeIsolatedHandler(h, e)
+	}
 	fp, err := file.OpenToReadContext(tctx, retryDelay, h.path)
 	if err != nil {
 		return h, closeIsolatedHandler(h, err)
 	}
 	h.fp = fp
+	vhook.Event("h.acquired", "R "+h.path)
+	vhook.Yield("h.opened", 0)
 	return h, nil
 }
 
@@ -86,6 +99,7 @@ func NewHandlerForCreate(path string) (*Handler, error) {
 		openType: ForCreate,
 	}
 
+	vhook.Yield("h.create.exists", 0)
 	if Exists(h.path) {
 		return h, NewAlreadyExistError(fmt.Sprintf("file %s already exists", h.path))
 	}
@@ -99,11 +113,16 @@ func NewHandlerForCreate(path string) (*Handler, error) {
 	}
 	h.lockFile = lockFile
 
+	if e := vhook.Step("h.create.file", h.path); e != nil {
+		return h, closeIsolatedHandler(h, e)
+	}
 	fp, err := file.Create(h.path)
 	if err != nil {
 		return h, closeIsolatedHandler(h, err)
 	}
 	h.fp = fp
+	vhook.Event("h.acquired", "C "+h.path)
+	vhook.Yield("h.opened", 0)
 	return h, nil
 }
 
@@ -116,6 +135,7 @@ func NewHandlerForUpdate(ctx context.Context, path string, defaultWaitTimeout ti
 		openType: ForUpdate,
 	}
 
+	vhook.Yield("h.exists", 0)
 	if !Exists(h.path) {
 		return h, NewNotExistError(fmt.Sprintf("file %s does not exist", h.path))
 	}
@@ -124,15 +144,20 @@ func NewHandlerForUpdate(ctx context.Context, path string, defaultWaitTimeout ti
 		return h, closeIsolatedHandler(h, err)
 	}
 
+	if e := vhook.Step("h.open.update", h.path); e != nil {
+		return h, closeIsolatedHandler(h, e)
+	}
 	fp, err := file.OpenToUpdateContext(tctx, retryDelay, path)
 	if err != nil {
 		return h, closeIsolatedHandler(h, err)
 	}
 	h.fp = fp
+	vhook.Yield("h.opened", 0)
 
 	if err := h.CreateControlFileContext(tctx, Temporary, retryDelay); err != nil {
 		return h, closeIsolatedHandler(h, err)
 	}
+	vhook.Event("h.acquired", "U "+h.path)
 	return h, nil
 }
 
@@ -163,6 +188,7 @@ func (h *Handler) close() error {
 		return nil
 	}
 
+	vhook.Yield("h.release.unlock", 0)
 	if h.fp != nil {
 		if err := file.Close(h.fp); err != nil {
 			return err
@@ -170,6 +196,7 @@ func (h *Handler) close() error {
 		h.fp = nil
 	}
 
+	vhook.Yield("h.release.created", 0)
 	if h.openType == ForCreate && Exists(h.path) {
 		if err := os.Remove(h.path); err != nil {
 			return err
@@ -192,6 +219,7 @@ func (h *Handler) close() error {
 	h.rlockFile = nil
 
 	h.closed = true
+	vhook.Event("h.released", "close "+h.path)
 	return nil
 }
 
@@ -200,6 +228,7 @@ func (h *Handler) commit() error {
 		return nil
 	}
 
+	vhook.Yield("h.release.unlock", 0)
 	if h.fp != nil {
 		if err := file.Close(h.fp); err != nil {
 			return err
@@ -208,6 +237,7 @@ func (h *Handler) commit() error {
 	}
 
 	if h.openType == ForUpdate {
+		vhook.Yield("h.commit.closetemp", 0)
 		if h.tempFile.fp != nil {
 			if err := file.Close(h.tempFile.fp); err != nil {
 				return err
@@ -215,12 +245,18 @@ func (h *Handler) commit() error {
 			h.tempFile.fp = nil
 		}
 
+		if err := vhook.Step("h.commit.remove", h.path); err != nil {
+			return err
+		}
 		if Exists(h.path) {
 			if err := os.Remove(h.path); err != nil {
 				return err
 			}
 		}
 
+		if err := vhook.Step("h.commit.rename", h.path); err != nil {
+			return err
+		}
 		if err := os.Rename(h.tempFile.path, h.path); err != nil {
 			return err
 		}
@@ -242,6 +278,7 @@ func (h *Handler) commit() error {
 	h.rlockFile = nil
 
 	h.closed = true
+	vhook.Event("h.released", "commit "+h.path)
 	return nil
 }
 
@@ -252,6 +289,7 @@ func (h *Handler) closeWithErrors() error {
 
 	var errs []error
 
+	vhook.Yield("h.release.unlock", 0)
 	if h.fp != nil {
 		if err := file.Close(h.fp); err != nil {
 			errs = append(errs, err)
@@ -260,6 +298,7 @@ func (h *Handler) closeWithErrors() error {
 		}
 	}
 
+	vhook.Yield("h.release.created", 0)
 	if h.openType == ForCreate && Exists(h.path) {
 		if err := os.Remove(h.path); err != nil {
 			errs = append(errs, err)
@@ -284,6 +323,7 @@ func (h *Handler) closeWithErrors() error {
 		h.rlockFile = nil
 	}
 
+	vhook.Event("h.released", "force "+h.path)
 	return NewForcedUnlockError(errs)
 }
 
